@@ -548,7 +548,25 @@ func c13GenPlan(rt *rapid.T, sc *ccScenario) *c13Plan {
 				int32(rapid.IntRange(0, 6).Draw(rt, "claimGap"))
 		}
 	}
-	p.horizon = int32(maxExp) + 4
+	// Room for the second stage of the last HTLC: second-level transaction
+	// at the expiry, CSV (4) on top of it.
+	p.horizon = int32(maxExp) + 12
+
+	// Channel class. The scenario generator only knows the first three;
+	// a taproot channel is generated as an anchors / zero-fee-HTLC
+	// channel whose resolutions are re-dressed (c13Resolutions).
+	p.kind = rapid.SampledFrom([]int{
+		c13KindLegacy, c13KindLegacy, c13KindTweakless, c13KindTweakless,
+		c13KindAnchors, c13KindAnchors,
+		c13KindTaproot, c13KindTaproot, c13KindTaproot,
+		c13KindTaprootFinal, c13KindTaprootFinal, c13KindTaprootFinal,
+	}).Draw(rt, "c13Kind")
+	sc.ChanKind = p.kind
+	if p.kind >= c13KindTaproot {
+		sc.ChanKind = 2
+		p.tap = p.kind - c13KindTaproot + 1
+		p.blobs = rapid.IntRange(0, 2).Draw(rt, "blobs") == 0
+	}
 
 	return p
 }
@@ -669,6 +687,19 @@ func c13Compare(base, run *c13Outcome, sc *ccScenario, plan *c13Plan,
 		}
 	}
 
+	// Inputs handed to the sweeper: model (a) and equality with the
+	// uninterrupted run (b).
+	if len(run.inputErrs) > 0 {
+		return fmt.Errorf("sweeper input: %s", run.inputErrs[0])
+	}
+	onlyRun, hintDiff, err := c13CompareInputs(base, run)
+	if err != nil {
+		return err
+	}
+	st.Count("sweeper_inputs_compared", int64(len(run.inputs)))
+	st.Count("sweeper_inputs_only_after_restart", int64(onlyRun))
+	st.Count("sweeper_input_height_hint_differs", int64(hintDiff))
+
 	return nil
 }
 
@@ -697,9 +728,47 @@ func TestVerifC13Crash(t *testing.T) {
 					plan)
 			}
 		}
+		if len(base.inputErrs) > 0 {
+			rt.Fatalf("uninterrupted run: sweeper input: %s\n%v %v",
+				base.inputErrs[0], sc.sample(), plan)
+		}
 		W := base.effects
 		labels := []string{"conf=" + ccConfNames[plan.conf],
-			"terminal=" + base.state.String()}
+			"terminal=" + base.state.String(),
+			"chan=" + c13KindNames[plan.kind]}
+		if plan.blobs {
+			labels = append(labels, "taproot_resolution_blobs")
+		}
+		if plan.tap > 0 && plan.conf <= ccP {
+			nRes := 0
+			for i := range sc.HTLCs {
+				if sc.HTLCs[i].hasOutput(plan.conf) {
+					nRes++
+				}
+			}
+			if nRes > 0 {
+				labels = append(labels, "taproot_htlc_resolvers")
+			}
+		}
+		if len(base.incubated) > 0 {
+			labels = append(labels, "nursery_handoff")
+			if base.state == StateFullyResolved {
+				labels = append(labels, "nursery_completed")
+			}
+		}
+		if base.nurseryTimeoutTx > 0 {
+			labels = append(labels, "nursery_published_timeout_tx")
+		}
+		if base.nurseryKidSweeps > 0 {
+			labels = append(labels, "nursery_swept_second_level_output")
+		}
+		wts := map[string]bool{}
+		for _, r := range base.inputs {
+			wts[r.wt] = true
+		}
+		for wt := range wts {
+			labels = append(labels, "wt="+wt)
+		}
 		if base.broadcast {
 			labels = append(labels, "own_broadcast")
 		}
